@@ -35,10 +35,17 @@
                              postprocess_block makes of one, consists of trees valid at every edge whose roots a Paragraph
                              and a Heading accept, and a TableCell too when the input holds no CR / LF
      Parse_valid_report_sound  the executable report tools/checks/c04.py evaluates (premise, conclusion) is sound
-                             NOT proved (Parse_valid_full_statement): the premise bcells_ok for every input, i.e. that
-                             table.rs::row cuts cells free of line ends out of its line (scanners::table_cell excludes CR
-                             and LF) and that the block phase never appends a line to a TableCell.  It is evaluated on
-                             every generated document of the C04 run (driver op `pvalid`)
+     Parse_cells_row / Parse_cells_blocks
+                             the premise, for every input: the prefix scanners::table_cell returns holds neither CR nor LF
+                             (both spoiler settings: Props/ParseValid.v Parse_cells_scanner), so every cell table.rs::row cuts
+                             is free of them (unescape_pipes and trim only remove bytes); and the block phase never puts a
+                             line end into a TableCell (add_line is only applied to a Paragraph, a Heading, a CodeBlock, an
+                             HtmlBlock): bcells_ok of the block tree
+     Parse_valid             = Parse_valid_full_statement: C04, tree clause, ALL of Spec.Valid.structurally_valid for EVERY
+                             tree the parser model returns, no premise
+                             Props/ParseValid.v (obligations of C04 only): Parse_valid_corollaries - the validator model
+                             accepts the tree, the HTML and XML renderer models return Ok on it, the report of the check
+                             answers (true, true) whenever it answers
      Parse_line_invariance   C08 for the whole pipeline: without a front matter delimiter, equal lines and equal
                              reference budget max_ref_size(total_size) give the same result (tree or panic)
    Props/ParseMore.v: Parse_final_tree_sp_shape (Parser_shape for final_tree_sp), Parse_final_tree_sp_none (final_tree_sp with no
@@ -180,3 +187,29 @@ Example Parse_valid_example :
   parse_valid_report ex_o ex_u ex_doc = Some (true, true) /\
   parse_valid_report ex_o ex_u (B "| a\ |" ++ [x0a] ++ B "|---|" ++ [x0a] ++ B "| b  |" ++ [x0a]) = Some (true, true).
 Proof. vm_compute. split; reflexivity. Qed.
+
+(* ================================================================== C04, the tree clause WITHOUT premise (third wave) *)
+From V Require Proofs.ParseCellsRow Proofs.ParseCellsWalk Proofs.ParseCells.
+
+(* table.rs::row: every cell it returns is free of CR and LF, for every input string and both spoiler settings *)
+Theorem Parse_cells_row : forall s spoiler po cells,
+  row s spoiler = Ok (Some (po, cells)) -> Forall (fun c => no_nl (ce_content c) = true) cells.
+Proof. exact ParseCellsRow.row_cells_no_nl. Qed.
+Print Assumptions Parse_cells_row.
+
+(* the block phase: the content of every TableCell of the tree it returns holds neither CR nor LF *)
+Theorem Parse_cells_blocks : forall o x r, parse_blocks o x = Ok r -> bcells_ok (br_root r) = true.
+Proof. exact ParseCellsWalk.parse_blocks_cells. Qed.
+Print Assumptions Parse_cells_blocks.
+
+(* C04, tree clause, for every tree the parser model returns *)
+Theorem Parse_valid : Parse_valid_full_statement.
+Proof. exact ParseCells.parse_valid. Qed.
+Print Assumptions Parse_valid.
+
+(* non-vacuity: a row with an escaped pipe (the backslash is removed, the pipe stays in the cell), and the header row taken
+   from the LAST line of a two-line paragraph (the cells do not span the line end) *)
+Example Parse_cells_example :
+  (exists cells, row (B "| a | b\|c |" ++ [x0a]) false = Ok (Some (0, cells)) /\ map ce_content cells = [B "a"; B "b|c"]) /\
+  (exists cells, row (B "x" ++ [x0a] ++ B "| a | b |" ++ [x0a]) false = Ok (Some (2, cells)) /\ map ce_content cells = [B "a"; B "b"]).
+Proof. split; eexists; split; vm_compute; reflexivity. Qed.
